@@ -160,6 +160,23 @@ theorem sink_save_loads_table (order : Option (List Nat)) (d : SDoc) (out : Byte
     file_rt_table order d out d' hk h hlen hmax hwf hobjs htr hv1 hv2 hprev henc
   exact ⟨L, h1, h2, h3, h4, h7⟩
 
+/-- the same for the cross-reference-stream kind (`file_rt_stream` applied to the delivered bytes) -/
+theorem sink_save_loads_stream (order : Option (List Nat)) (d : SDoc) (out : Bytes) (d' : SDoc)
+    (before after : List Bytes) (s : List Resp) (hc : CutOf [] d out before after)
+    (hok : (saveSink before after s).ok = true)
+    (hk : d.xrefKind = .stream) (h : saveFrom [] d = some (out, d')) (hlen : out.length < 4294967296)
+    (hmax : d.maxId + 2 ≤ 4294967295) (hwf : DocWF d)
+    (hobjs : ∀ p ∈ d.objects, ObjOK p.2)
+    (htr : WFObj (.dict d.trailer) ∧ height (.dict d.trailer) ≤ MAX_NESTING ∧ NoRealD d.trailer)
+    (hv1 : ∀ b ∈ d.version, notEol b = true) (hv2 : validUtf8 d.version = true)
+    (hprev : d.trailer.get PREV = none) (henc : d.trailer.has ENCRYPT = false) :
+    ∃ L : Loaded, loadDocOrd order (saveSink before after s).delivered = .ok L ∧ L.version = d.version ∧
+      L.binaryMark = d.binaryMark ∧ (∀ id, L.objects.get id = (objectsWithXref d).get id) := by
+  rw [(saveSink_ok d out d' before after s hc hok).1]
+  obtain ⟨L, h1, h2, h3, _, _, _, h7⟩ :=
+    file_rt_stream order d out d' hk h hlen hmax hwf hobjs htr hv1 hv2 hprev henc
+  exact ⟨L, h1, h2, h3, h7⟩
+
 /-! ### saving again after a failure -/
 
 theorem Dict_set_set_same (d : Dict) (k : Bytes) (v : Obj) : (d.set k v).set k v = d.set k v := by
